@@ -132,6 +132,19 @@ theorem side_table_eq_filter (side : String → Bool) (g : GroupsD) (hn : (AL.ke
     freshSide side g = g.filter (fun p => side p.1) :=
   gather_eq_filter side g hn
 
+/-- side tables as lookups: a name is a key exactly when it carries the prefix and is a group, with
+the group's member list as value -/
+theorem side_table_exact (side : String → Bool) (g : GroupsD) (hn : (AL.keys g).Nodup) (n : String) :
+    AL.get? (freshSide side g) n = if side n = true then AL.get? g n else none := by
+  rw [side_table_eq_filter side g hn]
+  exact get?_filter_side side g n
+
+/-- glyph-to-group tables, any groups: a glyph is a key exactly when some group of that side lists it -/
+theorem g2g_table_domain (side : String → Bool) (g : GroupsD) (hn : (AL.keys g).Nodup) (x : String) :
+    (AL.get? (freshG2G side g) x).isSome = true ↔ ∃ G, IsGroupOf side g x G := by
+  rw [get?_freshG2G _ _ hn]
+  exact lastGroupOf_isSome_iff side g x
+
 /-- glyph-to-group tables, any groups: glyph ↦ last group of that side listing it -/
 theorem g2g_table_general (side : String → Bool) (g : GroupsD) (hn : (AL.keys g).Nodup) (x : String) :
     AL.get? (freshG2G side g) x = lastGroupOf side g x :=
